@@ -584,7 +584,7 @@ func init() {
 		Rule: "cases: every ordered pair of a 96-token dictionary (keywords, operators, delimiters, literals, representatives of multi-byte letters/digits/spaces/marks, control bytes) inside an action (tight and spaced; x12 delimiter configurations in the thorough tier), then per case one of: valid generated template, truncation at a random offset, token/byte mutation, delimiter noise, " +
 			"a valid template plus one structural break (unterminated action/comment/string, missing or surplus end, late extends/import) that must be reported, or a reference set (extends/import of existing, missing, broken, transitively broken, self- and mutually cyclic templates); " +
 			"entry points Set.Parse and Set.GetTemplate (looked up twice); oracle: no panic, worker alive, (template with Root, nil error) xor error, error positions name a template of the set and a line inside it, no lexer goroutine left, return within 30s; " +
-			"non-trivial = source contains an action or comment opener; distinct by (class, delimiter config, normalised outcome message)",
+			"non-trivial = source contains an action or comment opener; distinct by (class, delimiter config, normalised outcome message) Since waves 8/9: a third of the structural-mistake cases are stored as the first extension candidate of the name asked for beside a loadable later candidate; four delimiter configurations configure only one marker of a pair; every 23rd case first deletes an entry the in-memory loader never held.",
 		Assumptions:     []string{"a parse of a <=8KiB source that takes more than 30s is a hang", "goroutines still present 200ms after return are leaked"},
 		NCases:          c02n,
 		RunCase:         c02run,
